@@ -23,6 +23,7 @@ CONSTANTS
   MaxLife,      \* bound on close / crash / flush events per history
   MaxDims,      \* bound on dimension descriptors per array
   MaxSteps,     \* bound on the history length (0 = unbounded)
+  MaxGen,       \* bound of the churn counter `gen` (0 = histories are identified by the state they reach)
   EmitActs,     \* emission filter: only transitions whose action is in this set are printed ...
   EmitRes,      \* ... and whose outcome is this ("any" = both)
   EmitWhen      \* ... "always", or "ro": only steps of / into / out of a read-only session
@@ -42,11 +43,14 @@ VARIABLES
              \* client retains keeps its HDF5 group, and with it its outgoing links, alive)
   ended,     \* how the previous session ended: "" | "close" | "crash" (part of the state so that a reopen
              \* after a kill is explored separately from a reopen after a close)
+  gen,       \* churn counter: number of removing steps (delete, unlink, replace, delete-dimensions) so far,
+             \* capped at MaxGen; part of the state so that "remove and add again" histories are explored
+             \* as behaviours of their own instead of being merged with the state they return to
   life,      \* number of life-cycle events so far
   last,      \* ghost: the last call with its outcome
   hist       \* ghost: the calls that led here
 
-vars == <<tree, disk, diskOk, open, mode, dirty, nextEid, retained, limbo, zl, ended, life, last, hist>>
+vars == <<tree, disk, diskOk, open, mode, dirty, nextEid, retained, limbo, zl, ended, gen, life, last, hist>>
 
 ROOT == 0
 FOREIGN == -2      \* stands for an entity of the right kind that lives in ANOTHER file
@@ -144,12 +148,12 @@ Budget == MaxSteps = 0 \/ Len(hist) < MaxSteps
 
 \* a call that throws: nothing changes (this is the DESIGN; property C08)
 Reject(a, args) ==
-  /\ UNCHANGED <<tree, disk, diskOk, open, mode, dirty, nextEid, retained, limbo, zl, ended, life>>
+  /\ UNCHANGED <<tree, disk, diskOk, open, mode, dirty, nextEid, retained, limbo, zl, ended, gen, life>>
   /\ Record(Call(a, args, "reject", 0))
 
 \* a call that returns without effect (e.g. delete of something absent returns false)
 NoEffect(a, args) ==
-  /\ UNCHANGED <<tree, disk, diskOk, open, mode, dirty, nextEid, retained, limbo, zl, ended, life>>
+  /\ UNCHANGED <<tree, disk, diskOk, open, mode, dirty, nextEid, retained, limbo, zl, ended, gen, life>>
   /\ Record(Call(a, args, "ok", 0))
 
 \* everything entity y links to (link containers, single links, data-frame dimensions)
@@ -170,6 +174,8 @@ Mutated(a, args, t2, new) ==
   /\ zl' = IF a = "Delete" THEN zl \cup UNION {{<<y, x>> : x \in LinkTargets(tree, y)} : y \in Sub(tree, args.t)} ELSE zl
   /\ retained' = IF new # 0 THEN Append(retained, new) ELSE retained
   /\ nextEid' = IF new # 0 THEN nextEid + 1 ELSE nextEid
+  /\ gen' = IF (a \in {"Delete", "RemoveLink", "DeleteDims"} \/ (a = "SetOne" /\ tree[args.p].one[args.slot] # NONE)) /\ gen < MaxGen
+             THEN gen + 1 ELSE gen
   /\ UNCHANGED <<disk, diskOk, open, mode, ended, life>>
   /\ Record(Call(a, args, "ok", new))
 
@@ -326,12 +332,12 @@ LifeStep(a, m) == /\ life < MaxLife /\ life' = life + 1 /\ Budget
 
 Flush == /\ open /\ LifeStep("Flush", "")
          /\ disk' = (IF mode = "rw" THEN tree ELSE disk) /\ dirty' = FALSE
-         /\ UNCHANGED <<tree, diskOk, open, mode, nextEid, retained, limbo, zl, ended>>
+         /\ UNCHANGED <<tree, diskOk, open, mode, nextEid, retained, limbo, zl, ended, gen>>
 
 Close == /\ open /\ LifeStep("Close", "")
          /\ disk' = (IF mode = "rw" THEN tree ELSE disk) /\ dirty' = FALSE /\ open' = FALSE
          /\ ended' = "close"
-         /\ UNCHANGED <<tree, diskOk, mode, nextEid, retained, limbo, zl>>
+         /\ UNCHANGED <<tree, diskOk, mode, nextEid, retained, limbo, zl, gen>>
 
 \* the writing process is killed (SIGKILL): the session is gone; the file is intact iff nothing was
 \* modified since the last flush
@@ -339,7 +345,7 @@ Crash == /\ open /\ LifeStep("Crash", "")
          /\ diskOk' = (diskOk /\ (~dirty \/ mode = "ro")) /\ open' = FALSE /\ dirty' = FALSE
          /\ ended' = "crash"
          /\ retained' = <<>> /\ limbo' = {} /\ zl' = {}     \* the process and all its handles are gone
-         /\ UNCHANGED <<tree, disk, mode, nextEid>>
+         /\ UNCHANGED <<tree, disk, mode, nextEid, gen>>
 
 Open(m) == /\ ~open /\ diskOk /\ m \in {"rw", "ro", "ow"} /\ LifeStep("Open", m)
            /\ open' = TRUE /\ mode' = (IF m = "ro" THEN "ro" ELSE "rw")
@@ -349,12 +355,12 @@ Open(m) == /\ ~open /\ diskOk /\ m \in {"rw", "ro", "ow"} /\ LifeStep("Open", m)
            /\ tree' = (IF m = "ow" THEN EmptyTree ELSE disk)
            /\ disk' = (IF m = "ow" THEN EmptyTree ELSE disk)
            /\ retained' = <<>> /\ limbo' = {} /\ zl' = {}
-           /\ UNCHANGED <<diskOk, nextEid, ended>>
+           /\ UNCHANGED <<diskOk, nextEid, ended, gen>>
 
 ---------------------------------------------------------------------------
 Init ==
   /\ tree = EmptyTree /\ disk = EmptyTree /\ diskOk = TRUE /\ open = TRUE /\ mode = "rw" /\ dirty = TRUE
-  /\ nextEid = 1 /\ retained = <<>> /\ limbo = {} /\ zl = {} /\ ended = "" /\ life = 0
+  /\ nextEid = 1 /\ retained = <<>> /\ limbo = {} /\ zl = {} /\ ended = "" /\ gen = 0 /\ life = 0
   /\ last = Call("Init", NoArgs, "ok", 0) /\ hist = <<>>
 
 ArraysOrNone == {NONE} \cup {x \in Live(tree) : tree[x].kind = "array"}
@@ -478,7 +484,7 @@ ObsOf(t, o, m, r, lb, z) ==
                             ELSE IF Pinned(t, r, z, r[i]) THEN "pinned" ELSE "no"]]]
 Obs == ObsOf(tree, open, mode, retained, limbo, zl)
 
-View == <<tree, disk, diskOk, open, mode, dirty, nextEid, retained, limbo, zl, ended, life>>
+View == <<tree, disk, diskOk, open, mode, dirty, nextEid, retained, limbo, zl, ended, gen, life>>
 \* every emitted line is self-contained (history + step + expected observation), so a configuration prints
 \* only the transitions its property judges
 Emit == (/\ last'.a \in EmitActs /\ (EmitRes = "any" \/ last'.res = EmitRes)
